@@ -24,6 +24,7 @@ void        vp_unmap(uint8_t* p, size_t n);
 uint8_t*    vp_guard_end(size_t n);                         /* n bytes; byte n is inaccessible   */
 uint8_t*    vp_guard_begin(size_t n);                       /* n bytes; byte -1 is inaccessible  */
 void        vp_guard_free(uint8_t* p, size_t n);
+void        vp_readonly(uint8_t* page, size_t n, int on);   /* pages from vp_map(): read-only on/off          */
 uint8_t*    vp_heap(size_t n);                              /* malloc(n): exact extent under ASan */
 void        vp_heap_free(uint8_t* p);
 int         vp_try(void (*fn)(void*), void* arg);           /* 0, or the fatal signal caught     */
@@ -31,7 +32,7 @@ void        vp_curop(const char* a, const char* b, const char* c, uint64_t n); /
 void        vp_yield(uint64_t r);                           /* scheduling noise for thrmon       */
 
 /* ------------------------------------------------------------------ PRNG (xoshiro256**) */
-typedef struct { uint64_t s[4]; } vp_rng_t;
+typedef struct { uint64_t s[4]; const uint8_t* feed; size_t feed_n; } vp_rng_t;   /* feed: bytes of a fuzz input take the place of the generator while they last */
 void     vp_rng_seed(vp_rng_t* r, uint64_t seed, uint64_t stream);
 uint64_t vp_rng_next(vp_rng_t* r);
 static inline uint64_t vp_rng_below(vp_rng_t* r, uint64_t n) { return n ? vp_rng_next(r) % n : 0; }
@@ -73,6 +74,7 @@ void o_u(vp_ctx_t* c, uint64_t v);
 void o_x(vp_ctx_t* c, uint64_t v);
 void o_hex(vp_ctx_t* c, const uint8_t* p, size_t n);
 void o_end(vp_ctx_t* c);
+extern int vp_abort_on_violation;                           /* coverage-guided targets: a V| line ends the process (abort) */
 
 /* S|name|value  statistics line */
 void vp_stat(vp_ctx_t* c, const char* name, uint64_t v);
